@@ -173,3 +173,27 @@ Theorem invoke_restarted_on_reentry_refuted :
     fst (fast_macro_end has_invoke (cfg_after ms cfg0) (filter has_invoke cfg0)) = [].
 Proof. exact macro_end_vs_w3c_reentry_refuted_lemma. Qed.
 Print Assumptions invoke_restarted_on_reentry_refuted.
+
+(* ---------------------------------------------------------------------------------------------- *)
+(* the USCXMLInvoker protocol proper is dead-lock free (invoke_no_deadlock), but uninvoke goes on to
+   destroy the invoked session, and stopping its delayed-event thread is not: when stop() begins while
+   that thread is between its test of _isStarted and event_base_loop, the break is lost, the thread
+   blocks in the loop and the join -- hence uninvoke -- never returns (same root cause as C10's
+   teardown_terminates) *)
+Theorem invoke_teardown_no_deadlock_refuted :
+  exists s, treachable false DRead s /\ tp s = TJoin /\ dp s = DLoop /\ tstuck false s = true /\
+            (forall l, tstep false s l = None).
+Proof. exact teardown_deadlock_refuted_lemma. Qed.
+Print Assumptions invoke_teardown_no_deadlock_refuted.
+
+(* partial (the state space is finite: 64 states, explored exhaustively): if the thread already sits in
+   event_base_loop when stop() begins, no reachable state is stuck.  Missing: the window above. *)
+Theorem invoke_teardown_no_deadlock_partial : forall s, treachable false DLoop s -> tstuck false s = false.
+Proof. exact teardown_from_loop_never_stuck_lemma. Qed.
+Print Assumptions invoke_teardown_no_deadlock_partial.
+
+(* with stop() repaired as in patches/C10-teardown-sticky-wakeup.diff (the wake-up survives the entry
+   into the loop): no reachable state is stuck, wherever the thread is when stop() begins *)
+Theorem invoke_teardown_no_deadlock_repaired : forall d s, treachable true d s -> tstuck true s = false.
+Proof. exact teardown_sticky_never_stuck_lemma. Qed.
+Print Assumptions invoke_teardown_no_deadlock_repaired.
